@@ -272,9 +272,17 @@ def local_derives_from_call(func, name, call_pred, _seen=None):
     for n in walk_own(func.node):
         v = None
         if isinstance(n, ast.Assign) and any(name in assigned_names(t) for t in n.targets):
-            if not all(isinstance(t, ast.Name) for t in n.targets):
+            if len(n.targets) == 1 and isinstance(n.targets[0], ast.Tuple) and isinstance(n.value, ast.Tuple) and len(n.targets[0].elts) == len(n.value.elts) \
+                    and all(isinstance(t, ast.Name) for t in n.targets[0].elts):
+                # a, b = x, y : element-wise
+                v = None
+                for t, e in zip(n.targets[0].elts, n.value.elts):
+                    if t.id == name:
+                        v = val(e)
+            elif not all(isinstance(t, ast.Name) for t in n.targets):
                 return False
-            v = val(n.value)
+            else:
+                v = val(n.value)
         elif isinstance(n, ast.AugAssign) and isinstance(n.target, ast.Name) and n.target.id == name:
             if not isinstance(n.op, ast.Add):
                 return False
@@ -343,6 +351,28 @@ def cmp_fact(t, pol=True):
     if o in _POS:
         return (_POS[o], norm(t.left), norm(t.comparators[0]), bool(pol))
     return None
+
+
+_ORD_NEG = {ast.GtE: ast.Lt, ast.Gt: ast.LtE, ast.LtE: ast.Gt, ast.Lt: ast.GtE}
+_ORD_MIRROR = {ast.GtE: ast.LtE, ast.Gt: ast.Lt, ast.LtE: ast.GtE, ast.Lt: ast.Gt}
+_ORD_SYM = {">=": ast.GtE, ">": ast.Gt, "<=": ast.LtE, "<": ast.Lt}
+
+
+def order_fact(t, pol, rel, is_a, is_b):
+    """Does `t` having outcome `pol` say  a <rel> b  (rel in >=, >, <=, <) for integers a, b recognised by the predicates
+    is_a / is_b - written either way round, possibly as the false outcome of the complementary comparison?"""
+    if not (isinstance(t, ast.Compare) and len(t.ops) == 1 and type(t.ops[0]) in _ORD_NEG):
+        return False
+    o = type(t.ops[0])
+    if not pol:
+        o = _ORD_NEG[o]
+    l, r = t.left, t.comparators[0]
+    want = _ORD_SYM[rel]
+    if is_a(l) and is_b(r):
+        return o is want
+    if is_a(r) and is_b(l):
+        return _ORD_MIRROR[o] is want
+    return False
 
 
 def str_template(e):
